@@ -258,6 +258,14 @@ func cmdCheck(argv []string) int {
 		}
 	}
 	if *verbose {
+		for _, fr := range results {
+			for _, h := range sortedBoolKeys(fr.VC.used.Havocked) {
+				fmt.Fprintf(os.Stderr, "havoc in %s: %s\n", fr.Name, h)
+			}
+			for _, h := range sortedBoolKeys(fr.VC.used.Inlined) {
+				fmt.Fprintf(os.Stderr, "inlined in %s: %s\n", fr.Name, h)
+			}
+		}
 		for _, r := range sres {
 			fmt.Fprintf(os.Stderr, "%-7s %-7s %6.2fs %7dB %s\n", r.Status, r.Solver, r.Secs, r.Bytes, r.Obl.Name)
 		}
